@@ -48,6 +48,8 @@ var c09Shapes = []c09Shape{
 	// task names starting with an underscore (legal identifiers), as a dependency and requested directly
 	{"underscore-dependency", 2, [][]int{{}, {0}}, []string{"betatask"}},
 	{"underscore-requested", 1, [][]int{{}}, []string{"_gen"}},
+	// a chain of twelve tasks: failures far down the run order
+	{"long-chain", 12, [][]int{{}, {0}, {1}, {2}, {3}, {4}, {5}, {6}, {7}, {8}, {9}, {10}}, []string{"tl"}},
 	{"single", 1, [][]int{{}}, []string{"alphatask"}},
 	{"independent", 2, [][]int{{}, {}}, []string{"alphatask", "betatask"}},
 	{"chain", 2, [][]int{{}, {0}}, []string{"betatask"}},
@@ -66,6 +68,8 @@ func (s c09Shape) taskName(t int) string {
 		}
 	case "underscore-requested":
 		return "_gen"
+	case "long-chain":
+		return "t" + string(rune('a'+t))
 	}
 	return c09Names[t]
 }
@@ -131,6 +135,9 @@ func c09Cases(tier string) []c09Case {
 	}
 	for _, sh := range c09Shapes {
 		for n := 1; n <= maxCmds; n++ {
+			if sh.Name == "long-chain" && n > 1 {
+				continue
+			}
 			var singles []c09Fail
 			for t := 0; t < sh.NTasks; t++ {
 				for k := 1; k <= n; k++ {
@@ -159,6 +166,11 @@ func c09Cases(tier string) []c09Case {
 						a, b := singles[i], singles[j]
 						a.Status, b.Status = 3, 1
 						out = append(out, c09Case{sh.Name, n, []c09Fail{a, b}, mode})
+						// statuses whose sum is a multiple of 256
+						for _, pr := range [][2]int{{128, 128}, {255, 1}} {
+							a.Status, b.Status = pr[0], pr[1]
+							out = append(out, c09Case{sh.Name, n, []c09Fail{a, b}, mode})
+						}
 					}
 				}
 			}
